@@ -131,8 +131,54 @@ def run(rep, tier, seed):
         delta = progs.outcome_delta(v["exp"], out)
         sig = "op %s %s %s %s" % (it["op"], kind(it["ta"]), kind(it["tb"]), delta)
         rep.disagree(sig, {"src": it["src"], "expected": v["exp"], "got": it["raw"], "operands": [it["ta"], it["tb"]]})
+    relation_laws(rep, items)
     rep.assumptions += ["float results outside the dyadic float model are not compared (counted as unspecified)",
                         "operands are written as literals; the renderer (lib/past.py) is trusted"]
+
+
+def relation_laws(rep, items):
+    """the six comparison operators on every ordered operand pair of the table (and on the pairs with the doubles far
+    outside the model) must describe one relation (spec/OpLawTrace.tla) - also where the documentation leaves the
+    ordering itself open"""
+    name = {"<": "lt", ">": "gt", "<=": "le", ">=": "ge", "==": "eq", "!=": "ne"}
+    table = {}
+    srcs = {}
+    for it in items:
+        if it["op"] not in name or it["ta"].endswith(":rand") or ":self-" in it["ta"] or it["ta"].startswith("arr:") and ":" in it["ta"][4:] and it["tb"].startswith("arr:") and "change" in it["ta"]:
+            continue
+        if it["ta"] == "float:far" or it["tb"] == "float:far":
+            continue            # (several texts share the tag)
+        out = it.get("out") or {}
+        if out.get("how") == "ok" and (out.get("obs") or {}).get("v") and out["obs"]["v"][0].get("k") == "bool":
+            a = "T" if out["obs"]["v"][0]["v"] else "F"
+        elif out.get("how") == "rterror":
+            a = "E"
+        else:
+            a = "other:%s" % out.get("how")
+        table.setdefault((it["ta"], it["tb"]), {})[name[it["op"]]] = a
+        srcs.setdefault((it["ta"], it["tb"]), {})[name[it["op"]]] = it["src"]
+    recs = []
+    for (ta, tb), r in sorted(table.items()):
+        sw = table.get((tb, ta))
+        if len(r) != 6 or sw is None or len(sw) != 6:
+            continue
+        rec = {"id": "%s|%s" % (ta, tb), "sw": sw}
+        rec.update(r)
+        recs.append(rec)
+    if not recs:
+        raise core.ToolError("no operand pair with all six comparison operators")
+    verdicts, tres = core.tlc_validate("OpLawTrace", recs, workers=2)
+    rep.add_tlc(tres)
+    rep.cov["traces_validated_against_impl"] += len(recs)
+    rep.cov["evaluations"] += len(recs)
+    rep.notes["operand_pairs_under_the_relation_laws"] = len(recs)
+    for rec in recs:
+        v = verdicts[rec["id"]]
+        if v["v"] == "bad":
+            ta, tb = rec["id"].split("|")
+            rep.disagree("comparison operators disagree among themselves on %s, %s: %s" % (kind(ta), kind(tb), v["why"]),
+                         {"operands": [ta, tb], "answers": {k: rec[k] for k in ("lt", "gt", "le", "ge", "eq", "ne")}, "swapped": rec["sw"],
+                          "programs": srcs.get((ta, tb))})
 
 
 def replay(rep, path):
